@@ -62,7 +62,7 @@ func runC03(seed int64, tier string, sc *Script) map[string]any {
 			Foreign: rng.Intn(3) == 0, EmptyBlob: rng.Intn(2) == 0})
 		// (a remote repository knows one kind of predecessor: the referrers of a subject,
 		// listed page by page through the Referrers API or read from the referrers tag)
-		srcKind := []string{"memory", "oci", "oci-reopen-dir", "oci-reopen-fs", "oci-reopen-tar", "file", "remote-api", "remote-tags"}[ci%8]
+		srcKind := []string{"memory", "oci", "oci-reopen-dir", "oci-reopen-fs", "oci-reopen-tar", "file", "remote-api", "remote-tags", "file-cas"}[ci%9]
 		remoteSrc := strings.HasPrefix(srcKind, "remote")
 		sc.Case("extcopy-" + srcKind)
 		sc.NonTrivial()
@@ -110,11 +110,12 @@ func runC03(seed int64, tier string, sc *Script) map[string]any {
 			s := memory.New()
 			push(s)
 			src = s
-		case "file":
+		case "file", "file-cas":
 			s, err := file.New(dir)
 			if err != nil {
 				panic(err)
 			}
+			s.ForceCAS = srcKind == "file-cas"
 			defer s.Close()
 			push(s)
 			src = s
